@@ -75,7 +75,8 @@ FA = [["-r", "expl_fa", "-o", "alg=antichains"], ["-r", "expl_fa", "-o", "alg=co
 
 
 CLI_FLAGS = {"load": ["load"], "loadp": ["-p", "load"], "loads": ["-s", "load"], "witness": ["witness"], "cmpl": ["cmpl"],
-             "union": ["union"], "isect": ["isect"], "red": ["red"], "simdown": ["-o", "dir=down", "sim"], "simup": ["-o", "dir=up", "sim"]}
+             "union": ["union"], "isect": ["isect"], "unions": ["-s", "union"], "unionp": ["-p", "union"],
+             "isects": ["-s", "isect"], "isectp": ["-p", "isect"], "red": ["red"], "simdown": ["-o", "dir=down", "sim"], "simup": ["-o", "dir=up", "sim"]}
 
 
 def parse_dump(text, keep_names):
@@ -118,10 +119,11 @@ def cli_op(vata, toks, fa, fb, budget):
     if op == "cmpl":
         ranks = [int(x) for x in toks[4].split(",")] if toks[4] != "-" else []
         extra = [f"s{i}:{r}" for i, r in enumerate(ranks)]
-    tricky = op in ("union", "isect") and len(toks) > 5 and toks[5] == "nm=1"
+    two = op in ("union", "isect", "unions", "unionp", "isects", "isectp")
+    tricky = two and len(toks) > 5 and toks[5] == "nm=1"
     open(fa, "w").write(ta_timbuk(A, "A", extra, names="A" if tricky else None))
     files = [fa]
-    if op in ("union", "isect"):
+    if two:
         open(fb, "w").write(ta_timbuk(gen.TA.parse(toks[4]), "B", names="B" if tricky else None))
         files.append(fb)
     try:
